@@ -9,7 +9,7 @@ RULE = ("cases: a real Uni (movable full-sync / atomic / crossbeam channel, MAX_
 TB = ["tokio 1.x current-thread runtime with the paused clock (tokio test-util) is the time base: 'slow' = tokio::time::sleep, 'timed out' = tokio::time::timeout",
       "futures 0.3 for_each / for_each_concurrent are modelled by their documented polling discipline (source polled only while fewer than `limit` futures are in flight, dropped when it ends)",
       "one stream per Uni (MAX_STREAMS 1); events are all sent before the executor first runs; multi-thread runtimes are not exercised",
-      "Multi executors (flush_and_cancel_executor, sequential old/new transition of the log channel) are not in these suites"]
+      "Multi executors: Multi::close over k listeners is modelled (MExec.v) and compared; flush_and_cancel_executor and the sequential old/new transition of the log channel are judged by oracles only"]
 
 class C11(Prop):
     pid = "C11"; prop_file = "C11.v"
